@@ -417,6 +417,12 @@ func enumerate(thorough bool, emit func(*Case)) {
 									pk.C2S.Sizes, pk.C2S.Bufs = append([]int(nil), s...), append([]int(nil), st.c2s.Bufs...)
 									pk.S2C.Sizes, pk.S2C.Bufs = append([]int(nil), s...), append([]int(nil), st.s2c.Bufs...)
 									emit(&pk)
+									// the relay writes something of its own to the client before it copies the response
+									pw := c
+									pw.Pre = true
+									pw.C2S.Sizes, pw.C2S.Bufs = append([]int(nil), s...), append([]int(nil), st.c2s.Bufs...)
+									pw.S2C.Sizes, pw.S2C.Bufs = append([]int(nil), s...), append([]int(nil), st.s2c.Bufs...)
+									emit(&pw)
 								}
 							}
 						}
